@@ -176,6 +176,12 @@ pub fn c14_run(args: &Args) -> i32 {
             sessions.push((p, n, vec![position_line(p.fen, &spos::hist(p)), "isready".into(), format!("go depth {n}"), "isready".into()]));
         }
     }
+    // the largest depth limits through the real go handler, on positions whose trees stay tiny
+    for p in spos::DEEP.iter().take(if thorough { 4 } else { 2 }) {
+        for n in [254u32, 255] {
+            sessions.push((p, n, vec![position_line(p.fen, &spos::hist(p)), "isready".into(), format!("go depth {n}"), "isready".into()]));
+        }
+    }
     let checked = AtomicU64::new(0);
     let machinery: Mutex<Vec<String>> = Mutex::new(vec![]);
     par_for(&sessions, 16, &|_, (p, n, lines)| match session::run(lines, End::Quit, true) {
